@@ -37,6 +37,7 @@ type Prog struct {
 	combs       map[*types.Func]map[int]Comb
 	combMissing []string
 	mayWrite    map[*ssa.Function]map[*types.Var]bool
+	ctxCache    *ctxInfo
 }
 
 func shortName(s string) string {
